@@ -3,6 +3,8 @@ package c05
 
 import (
 	"bytes"
+	"errors"
+	"io"
 	"crypto"
 	"crypto/rsa"
 	"crypto/sha256"
@@ -234,6 +236,16 @@ func mozillaVerify(blob, content []byte, detached bool) error {
 	return p.Verify()
 }
 
+
+// refusingSigner is a key that cannot be used right now (a token that is locked, an agent that went away): it
+// names the right public key and every Sign call fails.
+type refusingSigner struct{ pub crypto.PublicKey }
+
+func (r refusingSigner) Public() crypto.PublicKey { return r.pub }
+func (r refusingSigner) Sign(io.Reader, []byte, crypto.SignerOpts) ([]byte, error) {
+	return nil, errors.New("signer refuses")
+}
+
 func checkCase(c Case) error {
 	id, err := gen.ParseIdent(c.Key, c.Cert)
 	if err != nil {
@@ -252,6 +264,13 @@ func checkCase(c Case) error {
 	imgAlg := crypto.SHA256
 	if c.ImgAlg != 0 {
 		imgAlg = crypto.Hash(c.ImgAlg)
+	}
+	if len(c.Content)%3 == 0 {
+		// a first attempt with a key that refuses (other content): the signature made next must not be affected
+		if _, ferr := pkcs7.SignPKCS7(refusingSigner{id.Priv().Public()}, id.Cert, oid, append([]byte("refused attempt: "), c.Content...)); ferr != nil {
+			hx.Class("failed_sign_attempt_first")
+		}
+		authenticode.SignAuthenticode(refusingSigner{id.Priv().Public()}, id.Cert, bytes.NewReader(append([]byte("refused"), c.Content...)), crypto.SHA256)
 	}
 	if c.AuthCode {
 		blob, err = authenticode.SignAuthenticode(id.Priv(), id.Cert, bytes.NewReader(c.Content), imgAlg)
